@@ -18,7 +18,7 @@ import (
 	"verifharness/sim"
 )
 
-const netSetup = `ip link set lo up; ip addr add 192.0.2.2/24 dev lo; ip -6 addr add fd00::2/64 dev lo nodad; ip route add default dev lo src 192.0.2.2; ip -6 route add default dev lo src fd00::2`
+const netSetup = `ip link set lo up; ip addr add 192.0.2.2/24 dev lo; ip -6 addr add fd00::2/64 dev lo nodad; ip route add default dev lo src 192.0.2.2; ip -6 route add default dev lo src fd00::2; ip rule add to 198.18.0.9 ipproto tcp unreachable`
 
 type supConfig struct {
 	Prop      string
